@@ -216,7 +216,7 @@ Vals(S, t) ==
         IF ev = <<>> THEN << <<>> >>
         ELSE << <<>>, <<ev[1]>>, <<ev[Len(ev)], ev[1]>> >>
              \o (IF Len(ev) > 2 THEN << Cap(ev, 6) >> ELSE <<>>)
-             \o (IF Tier = "thorough" /\ Size(S, t.e, ev[1]) <= 16
+             \o (IF Tier = "thorough" /\ t.e.k = "p" /\ t.e.p # "string"
                  THEN << [i \in 1..300 |-> Cyc(ev, i)] >> ELSE <<>>)
     [] t.k = "m" ->
         LET kv == KeyVals(t.key)  vv == Vals(S, t.v) IN
